@@ -49,7 +49,7 @@ class Wrap(object):
 
     def samples(self, X):
         if self.kind == "vector":
-            return X.copy()
+            return X.astype(np.int64) if getattr(self, "int_data", False) else X.copy()
         return [self.template.from_vector(x.copy()) for x in X]
 
     def build(self, X, centre, inplace, max_n=None):
@@ -89,7 +89,7 @@ class PCABook(Machine):
     REQUIRED_PROBES = ("branch_d_lt_n", "branch_d_ge_n", "float_selects_1", "float_selects_middle",
                        "float_selects_all", "trim_to_1", "trim_after_trim", "noop_setter", "copy_diverged",
                        "out_of_range_int", "out_of_range_float", "all_kept_reconstruct_exact",
-                       "object_backed", "uncentred", "max_n_components_at_build", "tiny_data_scale", "huge_data_scale")
+                       "object_backed", "uncentred", "max_n_components_at_build", "tiny_data_scale", "huge_data_scale", "integer_dtype_data")
 
     @classmethod
     def swarm(cls, rng, tier):
@@ -106,7 +106,7 @@ class PCABook(Machine):
         n = rng.randint(3, 14)
         return {"kind": kind, "centred": centred, "n": n, "d": d, "seed": rng.getrandbits(32),
                 "inplace": rng.random() < 0.5, "max_n": rng.choice([0, 0, 0, 1, 2, 3, 5]),
-                "scale_exp": rng.choice([-6, -3, 0, 0, 0, 3, 6]),
+                "scale_exp": rng.choice([-6, -3, 0, 0, 0, 3, 6]), "int_data": int(rng.random() < 0.15),
                 "steps": rng.randint(3, 16 if tier == "quick" else 40)}
 
     @classmethod
@@ -150,6 +150,11 @@ class PCABook(Machine):
         n = cfg["n"]
         self.centred = cfg["centred"]
         self.X = make_data(cfg["seed"], n, d, self.centred) * 10.0 ** cfg.get("scale_exp", 0)
+        self.int_data = bool(cfg.get("int_data")) and kind == "vector" and cfg.get("scale_exp", 0) >= 0
+        if self.int_data:
+            # integer-valued samples (e.g. 8-bit pixel data) handed over as an integer-dtype matrix
+            self.X = np.round(self.X * (8.0 if cfg.get("scale_exp", 0) == 0 else 1.0))
+            self.ctx.probe("integer_dtype_data")
         self.scale = float(np.abs(self.X).max())
         if cfg.get("scale_exp", 0) < 0:
             ctx0 = self.ctx
@@ -171,8 +176,9 @@ class PCABook(Machine):
         if not self.centred:
             ctx.probe("uncentred")
         max_n = cfg["max_n"] or None
+        self.w.int_data = self.int_data
         try:
-            m = self.w.build(self.X, self.centred, cfg["inplace"], max_n)
+            m = self.w.build(self.X, self.centred, cfg["inplace"] and not self.int_data, max_n)
         except Exception as ex:
             ctx.fail("build", "constructor_raised", repr(ex))
             self.pool = []
@@ -401,7 +407,22 @@ class PCABook(Machine):
         x = self.X[int(g.randint(self.X.shape[0]))] + g.randn(d) * self.scale * 0.05
         xo = w.obj(x)
         wts = g.randn(a) * np.sqrt(ev)
-        inst = m.instance(wts.copy())
+        w_in = wts.copy()
+        inst = m.instance(w_in)
+        ctx.require(np.array_equal(w_in, wts), "identities", "instance_modified_the_weights_it_was_given")
+        # the same instance through normalised weights (weights in units of standard deviations)
+        w_n = wts / np.sqrt(ev)
+        w_n_in = w_n.copy()
+        try:
+            inst_n = m.instance(w_n_in, normalized_weights=True)
+        except Exception as ex:
+            ctx.fail("identities", "instance_normalized_raised", repr(ex))
+            return
+        ctx.require(np.array_equal(w_n_in, w_n), "identities", "instance_modified_the_weights_it_was_given",
+                    lambda: "instance(w, normalized_weights=True) rescaled the caller's weight array in place")
+        back_n = np.asarray(m.project(inst_n), dtype=float)
+        ctx.require(back_n.shape == wts.shape and float(np.abs(back_n - wts).max()) <= 1e-8 * (np.sqrt(lam[0]) + np.abs(wts).max()),
+                    "identities", "project_of_normalized_instance_is_not_weights")
         back = np.asarray(m.project(inst), dtype=float)
         if back.shape != wts.shape:
             ctx.fail("identities", "project_returns_wrong_number_of_weights",
